@@ -228,8 +228,7 @@ def constraint_composition_keeps_every_solver(ctx):
     from .c13_refs import REFS
     a = 'mystic.symbolic:generate_constraint'
     f = ctx.func(a)
-    got = SB.summary(f.node, strict_casts=True)
-    want = SB.summary_of_source(REFS[a], strict_casts=True)
+    got, want = SB.agree(f.node, REFS[a], strict_casts=True)
     ctx.stats['terms_compared'] += len(got)
     ctx.check(got == want, 'generate_constraint', 'flatten, then one coupling type per solver, then fold in order',
               'generate_constraint differs from its confirmed behaviour (solvers can be dropped or coupled differently): %s' % SB.diff(got, want), f, f.node)
